@@ -129,6 +129,7 @@ func (x *Exec) runTop() {
 	}
 	st := &State{cells: map[*Cell]Value{}, heap: map[string]Term{}, loopHd: map[*Loop]*State{}, loopIt: map[*Loop]int{}}
 	st.alloc = x.decls.Const("alloc0", SInt)
+	st.alloc0 = st.alloc
 	st.assume(Le(IntLit(1), st.alloc))
 	fr := &Frame{fn: fn, regs: map[ssa.Value]Value{}, cells: map[*ssa.Alloc]*Cell{}, names: map[string]Value{}}
 	st.frames = []*Frame{fr}
@@ -354,6 +355,14 @@ func (x *Exec) specApply(e *Env, f *SpecFn, vals []Value) Value {
 	retSort := SInt
 	if f.Ret == "bool" {
 		retSort = SBool
+	}
+	if strings.HasPrefix(f.Ret, "like") {
+		pn := strings.TrimSpace(strings.TrimPrefix(f.Ret, "like"))
+		for i, p := range f.Params {
+			if p == pn {
+				retSort = flatten(vals[i])[0].Sort
+			}
+		}
 	}
 	def := x.specDefs[name]
 	if def == nil {
